@@ -58,6 +58,10 @@ type JApiCore struct {
 	// This property is used for processing INCLUDE keywords.
 	scannersStack *scanner.Stack
 
+	// includeExplicitContextDepths holds, for each file being included, the
+	// number of explicit contexts which were open when its INCLUDE was met.
+	includeExplicitContextDepths []int
+
 	// currentContextDirective is current context for adding a child directive.
 	currentContextDirective *directive.Directive
 
